@@ -518,7 +518,7 @@ class DiagProb(Problem):
     solve_system = solve_jacobian
 
 
-def diag_run(M, kind, dt, lam, lamE, u0, float_mode=False):
+def diag_run(M, kind, dt, lam, lamE, u0, float_mode=False, reconf=None):
     from pySDC.implementations.sweeper_classes.ParaDiagSweepers import QDiagonalization, QDiagonalizationIMEX
 
     cls = QDiagonalizationIMEX if kind == 'imex' else QDiagonalization
@@ -532,11 +532,13 @@ def diag_run(M, kind, dt, lam, lamE, u0, float_mode=False):
     for m in range(1, M + 1):
         L.u[m] = P.dtype_u(P.init)
         L.u[m][0] = 0.0
+    if reconf is not None:
+        L.sweep.set_G_inv(np.array(reconf, dtype=float))  # re-configured after construction through the public setter
     L.sweep.update_nodes()
     return L
 
 
-def diag_case(rep, M, kind, tol=1e-9, configs=None):
+def diag_case(rep, M, kind, tol=1e-9, configs=None, reconf=False):
     from pySDC.implementations.sweeper_classes.ParaDiagSweepers import QDiagonalization
 
     rep.func(QDiagonalization.update_nodes, QDiagonalization.mat_vec, QDiagonalization.computeDiagonalization)
@@ -544,11 +546,15 @@ def diag_case(rep, M, kind, tol=1e-9, configs=None):
     configs = configs or [(0.1, -1.0, 0.0 if kind != 'imex' else 0.3), (rng.uniform(0.05, 0.5), rng.uniform(-5, 0), 0.0 if kind != 'imex' else rng.uniform(-1, 1))]
     xr, xi = z3.Real('u0_re'), z3.Real('u0_im')
     for (dt, lam, lamE) in configs:
-        name = f'diag/{kind}/M{M}/dt{dt:.3g}/lam{lam:.3g}'
+        name = f'diag/{kind}/M{M}/dt{dt:.3g}/lam{lam:.3g}' + ('/reconfigured' if reconf else '')
+        # G: identity, or (reconf) a well conditioned upper triangular matrix installed with set_G_inv after the sweeper was built:
+        # the sweeper then solves (G - dt lam Q) y = u0
+        G = np.eye(M) + (np.triu(np.full((M, M), 0.25), 1) if reconf else 0)
+        Ginv = np.linalg.inv(G) if reconf else None
 
         def fn(c):
             c.add(z3.And(xr >= -1, xr <= 1, xi >= -1, xi <= 1))
-            L = diag_run(M, kind, dt, lam, lamE, SymComplex(xr, xi))
+            L = diag_run(M, kind, dt, lam, lamE, SymComplex(xr, xi), reconf=Ginv)
             Q = np.array(L.sweep.coll.Qmat)
             return [SymComplex.lift(L.u[m][0]) for m in range(1, M + 1)], Q
 
@@ -559,24 +565,24 @@ def diag_case(rep, M, kind, tol=1e-9, configs=None):
             lt = lam + lamE
             goal = []
             for m in range(1, M + 1):
-                dre = U[m - 1].re - xr
-                dim = U[m - 1].im - xi
+                dre = -xr
+                dim = -xi
                 for j in range(1, M + 1):
-                    dre = dre - rv(dt * Q[m, j] * lt) * U[j - 1].re
-                    dim = dim - rv(dt * Q[m, j] * lt) * U[j - 1].im
+                    dre = dre + rv(G[m - 1, j - 1] - dt * Q[m, j] * lt) * U[j - 1].re
+                    dim = dim + rv(G[m - 1, j - 1] - dt * Q[m, j] * lt) * U[j - 1].im
                 goal += [dre <= rv(tol), dre >= rv(-tol), dim <= rv(tol), dim >= rv(-tol)]
             res, model = prove(z3.And(goal), list(p.assume) + list(p.pc), name=name)
             rep.ob(name, res)
             if res == 'sat':
                 rep.replayed += 1
                 x = complex(float(core.model_value(model, xr)), float(core.model_value(model, xi)))
-                Lf = diag_run(M, kind, dt, lam, lamE, x, float_mode=True)
+                Lf = diag_run(M, kind, dt, lam, lamE, x, float_mode=True, reconf=Ginv)
                 Uf = np.array([complex(Lf.u[m][0]) for m in range(1, M + 1)])
-                defect = Uf - x - dt * lt * (Q[1:, 1:] @ Uf)
+                defect = G @ Uf - x - dt * lt * (Q[1:, 1:] @ Uf)
                 if np.max(np.abs(defect)) > 1e-8:
                     rep.violation(f'{rep.pid}/QDiagonalization/{kind}/collocation-solve',
                                   f'{name}: diagonalisation sweep leaves collocation defect {np.max(np.abs(defect)):.3e}',
-                                  {'task': ['diag', M, kind], 'dt': dt, 'lam': lam, 'lamE': lamE, 'u0': [x.real, x.imag], 'defect': np.abs(defect).tolist()})
+                                  {'task': ['diag', M, kind, reconf], 'dt': dt, 'lam': lam, 'lamE': lamE, 'u0': [x.real, x.imag], 'defect': np.abs(defect).tolist()})
                 else:
                     rep.unreproduced(name, {'u0': [x.real, x.imag], 'defect': np.abs(defect).tolist()})
             # sensitivity: a 1e-6 change of one Q entry in the spec must be noticed
@@ -584,9 +590,9 @@ def diag_case(rep, M, kind, tol=1e-9, configs=None):
             Q2[M, 1] += 1e-6
             goal2 = []
             for m in (M,):
-                dre = U[m - 1].re - xr
+                dre = -xr
                 for j in range(1, M + 1):
-                    dre = dre - rv(dt * Q2[m, j] * lt) * U[j - 1].re
+                    dre = dre + rv(G[m - 1, j - 1] - dt * Q2[m, j] * lt) * U[j - 1].re
                 goal2 += [dre <= rv(tol), dre >= rv(-tol)]
             res, _ = prove(z3.And(goal2), list(p.assume) + list(p.pc), name=name + ':mutated', kind='vacuity')
             rep.vac(name + ':mutated-spec-refuted', res, 'sat')
